@@ -138,19 +138,41 @@ def eval_C01(item):
 
 def eval_C02(item):
     res, d, a, steps = base_eval(item, 'C02')
-    st = steps[0]
-    if st.iobs is None:
-        return res
-    res['corr'] += session.diff_obs(st.iobs, st.mobs, ['par', 'lvl', 'anc', 'desc'], [])
-    if not res['corr']:
-        for sid, s in st.iobs['structs'].items():
-            if sorted(s['kids']) != sorted(st.mobs['structs'][sid]['kids']):
-                res['corr'].append('structure %d: children impl=%r model=%r' % (sid, s['kids'], st.mobs['structs'][sid]['kids']))
-        if sorted(st.iobs['trunk']) != sorted(st.mobs['trunk']):
-            res['corr'].append('trunk impl=%r model=%r' % (st.iobs['trunk'], st.mobs['trunk']))
     ctx = preds.Ctx(item['case'], d)
-    res['pred'] += preds.pred_C02(ctx, d, st.iobs, fresh=True)
+    for i, st in enumerate(steps):
+        if st.iobs is None:
+            continue
+        lab = '' if i == 0 else 'after %s (step %d): ' % (st.op[0], i)
+        corr = session.diff_obs(st.iobs, st.mobs, ['par', 'lvl', 'anc', 'desc'], [])
+        if not corr:
+            for sid, s in st.iobs['structs'].items():
+                if sorted(s['kids']) != sorted(st.mobs['structs'][sid]['kids']):
+                    corr.append('structure %d: children impl=%r model=%r' % (sid, s['kids'], st.mobs['structs'][sid]['kids']))
+            if sorted(st.iobs['trunk']) != sorted(st.mobs['trunk']):
+                corr.append('trunk impl=%r model=%r' % (st.iobs['trunk'], st.mobs['trunk']))
+        res['corr'] += [lab + x for x in corr]
+        res['pred'] += [lab + x for x in preds.pred_C02(ctx, steps_d(steps, i, d), st.iobs, fresh=(i == 0))]
+    if len(steps) > 1:
+        res['tags'].append('ops=' + '+'.join(st.op[0] for st in steps[1:]))
     return res
+
+
+def gen_item_C02(rng, idx, tier, pid):
+    # C02 quantifies over dendrograms obtained by compute, by prune (after arbitrary queries) and by load
+    import props_history as ph
+    item = gen_item(rng, idx, tier, pid)
+    r = idx % 4
+    if r == 1:
+        if rng.random() < 0.7:
+            item['case']['mind'] = 0
+            item['case']['minn'] = 0
+            item['case']['crits'] = []
+        item['ops'] = [ph.gen_prune_op(rng, item['case']) for _ in range(rng.choice([1, 1, 2]))]
+    elif r == 2:
+        item['ops'] = [('reload', rng.choice(['hdf5', 'fits']))]
+    elif r == 3 and rng.random() < 0.5:
+        item['ops'] = [ph.gen_prune_op(rng, item['case']), ('reload', rng.choice(['hdf5', 'fits']))]
+    return item
 
 
 def regions(obs):
